@@ -284,9 +284,9 @@ func calleeFacts(f Fact) []Fact {
 		return -1
 	}
 	type key struct {
-		op  token.Token
-		x   int
-		y   string
+		op token.Token
+		x  int
+		y  string
 	}
 	var sets []map[key]Cmp
 	for _, r := range Returns(h) {
